@@ -212,7 +212,7 @@ func TestC18Replicas(t *testing.T) {
 					fatal += "replica error: " + e + "\n"
 				}
 				for _, d := range o.Diffs {
-					agg.Violation("C18", "replica-diverged:"+d.Fields, map[string]any{"world": name, "chain": d.Chain, "block": d.Block, "fields": d.Fields})
+					agg.Violation("C18", "replica-diverged:"+strings.TrimSpace(d.Fields), map[string]any{"world": name, "chain": d.Chain, "block": d.Block, "fields": d.Fields, "detail": d.Detail})
 				}
 			}
 			for _, c := range wr.Chains {
